@@ -16,11 +16,11 @@ theorem run_tail' : ∀ (pre : List Step) (st : Step) (post : List Step) (h : Ho
   | nil =>
     intro st post h T hrun
     cases hrun with
-    | cons _ h' _ t b out _ hs hT hbt hrest => exact hrest
+    | cons _ h' _ t b out ad _ hs hT hbt hrest => exact hrest
   | cons s0 pre' ih =>
     intro st post h T hrun
     cases hrun with
-    | cons _ h' _ t b out _ hs hT hbt hrest => exact ih st post h' t hrest
+    | cons _ h' _ t b out ad _ hs hT hbt hrest => exact ih st post h' t hrest
 
 theorem run_wf : ∀ (steps : List Step) (h : Host) (T : Int), IsRun lower h T steps → WF lower h → ∀ st ∈ steps, WF lower st.pre := by
   intro steps
@@ -29,7 +29,7 @@ theorem run_wf : ∀ (steps : List Step) (h : Host) (T : Int), IsRun lower h T s
   | cons s0 rest ih =>
     intro h T hrun hw st hst
     cases hrun with
-    | cons _ h' _ t b out _ hs hT hbt hrest =>
+    | cons _ h' _ t b out ad _ hs hT hbt hrest =>
       rcases List.mem_cons.mp hst with rfl | hst
       · exact hw
       · exact ih h' t hrest (wf_step lower h h' b out hw hs) st hst
@@ -72,7 +72,7 @@ theorem Ent_step (hsv : Function.Injective N.svcId) (s : Register.Svc) (oid : Na
     (hs : st.pre.step lower st.b = some (st.post, st.out)) (hd : Disc lower st)
     (he : Ent lower N s oid st.pre)
     (hno : sigma lower N s ∉ removes lower N st ∧ sigma lower N s ∉ updSvcs lower N st) : Ent lower N s oid st.post := by
-  obtain ⟨t, b, h, h', out⟩ := st
+  obtain ⟨t, b, h, h', out, ad⟩ := st
   obtain ⟨e, hg, ho, hes⟩ := he
   have hem : e ∈ h.reg := List.mem_of_find?_eq_some hg
   have hek : key lower e.svc = key lower s := regGet_key lower h.reg _ e hg
@@ -174,7 +174,7 @@ theorem Ent_along (hsv : Function.Injective N.svcId) (s : Register.Svc) (oid : N
   | cons s0 rest ih =>
     intro h T hrun he hd pre st post hsplit hno
     cases hrun with
-    | cons _ h' _ t b out _ hs hT hbt hrest =>
+    | cons _ h' _ t b out ad _ hs hT hbt hrest =>
       cases pre with
       | nil =>
         simp only [List.nil_append, List.cons.injEq] at hsplit
@@ -183,7 +183,7 @@ theorem Ent_along (hsv : Function.Injective N.svcId) (s : Register.Svc) (oid : N
       | cons p0 pre' =>
         simp only [List.cons_append, List.cons.injEq] at hsplit
         obtain ⟨rfl, hrest'⟩ := hsplit
-        have he' := Ent_step lower N hsv s oid ⟨t, b, h, h', out⟩ hs (hd _ (by simp)) he (hno _ (by simp))
+        have he' := Ent_step lower N hsv s oid ⟨t, b, h, h', out, ad⟩ hs (hd _ (by simp)) he (hno _ (by simp))
         exact ih h' t hrest he' (fun st hst => hd st (by simp [hst])) pre' st post hrest' (fun m hm => hno m (by simp [hm]))
 
 /-! ### the announcement datagram is complete -/
@@ -257,14 +257,14 @@ theorem exec_announce (st : Step) (τ : Register.Task) (hs : st.pre.step lower s
     obtain ⟨_, hout⟩ := hs
     exact ⟨by rw [← hout]; simp [emit, Zc.GenFacts.Goodbye.send_is_noop_eq, hopen], fun h => absurd h hi⟩
 
-theorem mcastAt_of_out' (steps : List Step) (st : Step) (hst : st ∈ steps) (p : Pkt) (hp : p ∈ st.out) (s : Link.Svc)
-    (hs : s.owner = N.host) (q : List Link.Item → Bool) (hb : q (itemsOf lower N p) = true) :
+theorem mcastAt_of_out' (steps : List Step) (st : Step) (hst : st ∈ steps) (hdst : dstOf st.b st.adst = none) (p : Pkt)
+    (hp : p ∈ st.out) (s : Link.Svc) (hs : s.owner = N.host) (q : List Link.Item → Bool) (hb : q (itemsOf lower N p) = true) :
     Link.mcastAt (events lower N steps) s.owner st.t q = true := by
   rw [Link.mcastAt_iff]
   refine ⟨⟨st.t, N.host, 0, none, itemsOf lower N p⟩, ?_, hs.symm, rfl, rfl, hb⟩
   obtain ⟨pre, post, rfl⟩ := List.append_of_mem hst
   rw [events_append, events_cons, sends_append, sends_append, sends_stepEvents]
-  exact List.mem_append_right _ (List.mem_append_left _ (List.mem_map.mpr ⟨p, hp, rfl⟩))
+  exact List.mem_append_right _ (List.mem_append_left _ (List.mem_map.mpr ⟨p, hp, by rw [hdst]⟩))
 
 /-- an `unreg` / `upd` produced by a step is a register-event of the projected trace at the instant of the step -/
 theorem regEvs_of_step (steps : List Step) (st : Step) (hst : st ∈ steps) (s : Link.Svc)
@@ -295,7 +295,7 @@ theorem run_split_le : ∀ (pre : List Step) (st : Step) (post : List Step) (h :
   | cons s0 pre' ih =>
     intro st post h T hrun m hm
     cases hrun with
-    | cons _ h' _ t b out _ hs hT hbt hrest =>
+    | cons _ h' _ t b out ad _ hs hT hbt hrest =>
       rcases List.mem_cons.mp hm with rfl | hm
       · exact run_time_ge lower _ h' t hrest st (by simp)
       · exact ih st post h' t hrest m hm
@@ -337,8 +337,8 @@ def AnnAt (steps : List Step) (t : Int) (σ : Link.Svc) : Prop :=
 
 theorem AnnAt_mcast (steps : List Step) (t : Int) (s : Register.Svc) (h : AnnAt lower N steps t (sigma lower N s)) :
     Link.mcastAt (events lower N steps) N.host t (Link.posFull (sigma lower N s)) = true := by
-  obtain ⟨st, hst, _, rfl, p, hp, hq⟩ := h
-  exact mcastAt_of_out' lower N steps st hst p hp (sigma lower N s) rfl _ hq
+  obtain ⟨st, hst, ⟨oid, ttl, ad, due, hb⟩, rfl, p, hp, hq⟩ := h
+  exact mcastAt_of_out' lower N steps st hst (by rw [hb]; exact Zc.GenFacts.Link.dstOf_task _ _ _ _ _) p hp (sigma lower N s) rfl _ hq
 
 /-- **three complete announcements** after a `register` / `update` block at `t` that is followed by no call for the service up to
 `t + 450`, under the event-loop axiom -/
@@ -436,7 +436,7 @@ theorem announce_chain (hsv : Function.Injective N.svcId) (steps : List Step) (T
 theorem adds_cases (st : Step) (hs : st.pre.step lower st.b = some (st.post, st.out)) (s : Link.Svc)
     (ha : s ∈ adds lower N st) :
     ∃ s' oid now, (st.b = .register s' oid now ∨ st.b = .update s' oid now) ∧ s = sigma lower N s' := by
-  obtain ⟨t, b, h, h', out⟩ := st
+  obtain ⟨t, b, h, h', out, ad⟩ := st
   simp only [adds, List.mem_filter, Bool.not_eq_true', List.contains_eq_mem, decide_eq_false_iff_not, sig, List.mem_map] at ha
   obtain ⟨⟨e, he, hes⟩, hnot⟩ := ha
   simp only at hs he hnot ⊢
@@ -611,37 +611,39 @@ theorem K1_of_run (hsv : Function.Injective N.svcId) (steps : List Step) (T0 end
     obtain ⟨hown, a0, a1, a2⟩ := K1_core_reg lower N hsv steps T0 endT hrun hd hfair hopen hdist r hr hend hl
     simp only [List.mem_cons, List.not_mem_nil, or_false] at hoff
     rcases hoff with rfl | rfl | rfl
-    · obtain ⟨st, hst, _, ht, p, hp, hq⟩ := a0
+    · obtain ⟨st, hst, ⟨_, _, _, _, hbk⟩, ht, p, hp, hq⟩ := a0
       rw [← ht]
-      exact mcastAt_of_out' lower N steps st hst p hp r.2 hown _ hq
-    · obtain ⟨st, hst, _, ht, p, hp, hq⟩ := a1
+      exact mcastAt_of_out' lower N steps st hst (by rw [hbk]; exact Zc.GenFacts.Link.dstOf_task _ _ _ _ _) p hp r.2 hown _ hq
+    · obtain ⟨st, hst, ⟨_, _, _, _, hbk⟩, ht, p, hp, hq⟩ := a1
       rw [← ht]
-      exact mcastAt_of_out' lower N steps st hst p hp r.2 hown _ hq
-    · obtain ⟨st, hst, _, ht, p, hp, hq⟩ := a2
+      exact mcastAt_of_out' lower N steps st hst (by rw [hbk]; exact Zc.GenFacts.Link.dstOf_task _ _ _ _ _) p hp r.2 hown _ hq
+    · obtain ⟨st, hst, ⟨_, _, _, _, hbk⟩, ht, p, hp, hq⟩ := a2
       rw [← ht]
-      exact mcastAt_of_out' lower N steps st hst p hp r.2 hown _ hq
+      exact mcastAt_of_out' lower N steps st hst (by rw [hbk]; exact Zc.GenFacts.Link.dstOf_task _ _ _ _ _) p hp r.2 hown _ hq
   · intro u hu
     apply K1for_of_mcasts _ _ _ 450 _ _ (by decide)
     intro hend hl off hoff
     obtain ⟨hown, a0, a1, a2⟩ := K1_core_upd lower N hsv steps T0 endT hrun hd hfair hopen hdist u hu hend hl
     simp only [List.mem_cons, List.not_mem_nil, or_false] at hoff
     rcases hoff with rfl | rfl | rfl
-    · obtain ⟨st, hst, _, ht, p, hp, hq⟩ := a0
+    · obtain ⟨st, hst, ⟨_, _, _, _, hbk⟩, ht, p, hp, hq⟩ := a0
       rw [Int.add_zero, ← ht]
-      exact mcastAt_of_out' lower N steps st hst p hp u.2 hown _ hq
-    · obtain ⟨st, hst, _, ht, p, hp, hq⟩ := a1
+      exact mcastAt_of_out' lower N steps st hst (by rw [hbk]; exact Zc.GenFacts.Link.dstOf_task _ _ _ _ _) p hp u.2 hown _ hq
+    · obtain ⟨st, hst, ⟨_, _, _, _, hbk⟩, ht, p, hp, hq⟩ := a1
       rw [← ht]
-      exact mcastAt_of_out' lower N steps st hst p hp u.2 hown _ hq
-    · obtain ⟨st, hst, _, ht, p, hp, hq⟩ := a2
+      exact mcastAt_of_out' lower N steps st hst (by rw [hbk]; exact Zc.GenFacts.Link.dstOf_task _ _ _ _ _) p hp u.2 hown _ hq
+    · obtain ⟨st, hst, ⟨_, _, _, _, hbk⟩, ht, p, hp, hq⟩ := a2
       rw [← ht]
-      exact mcastAt_of_out' lower N steps st hst p hp u.2 hown _ hq
+      exact mcastAt_of_out' lower N steps st hst (by rw [hbk]; exact Zc.GenFacts.Link.dstOf_task _ _ _ _ _) p hp u.2 hown _ hq
 
 /-! ### host-local lifting -/
 
 /-- host `N.host`'s part of the link trace `tr` is the projection of a disciplined, fair timed run `steps` of the C08/C09 host
-machine that is open until the end of the window.  The machine does not model the route of a datagram; the one fact about routes
-the contracts need beyond `ByeMulticast` is `taskMcast`: what a broadcast task sends goes to the multicast group
-(`async_send(out)` without an address). -/
+machine that is open until the end of the window: its sends **that carry a pointer record** — instant, items and destination
+(`Bridge.dstOf`: the multicast group for everything the host sends on its own initiative, by the generated leaves of `Zc.Gen.Link`);
+the questions a host sends are its browsers' and its probes', not this machine's — and the `reg` / `upd` / `unreg` events of its
+services.  (`taskMcast` and `ByeMulticast`, formerly hypotheses, are theorems now: `AnnAt_mcast_tr`,
+`byeMulticast_of_generated`.) -/
 structure HostRun (tr : Link.Trace) (endT : Int) (N : Naming) (steps : List Step) (T0 : Int) : Prop where
   tyInj : Function.Injective N.tyId
   svInj : Function.Injective N.svcId
@@ -651,10 +653,10 @@ structure HostRun (tr : Link.Trace) (endT : Int) (N : Naming) (steps : List Step
   distinct : DistinctCalls lower N steps
   fair : Fair steps endT
   opened : Open steps
-  sendsIn : ∀ sd ∈ Link.sends tr, sd.h = N.host → ∃ sd' ∈ Link.sends (events lower N steps), sd'.t = sd.t ∧ sd'.items = sd.items
-  sendsOut : ∀ sd' ∈ Link.sends (events lower N steps), ∃ sd ∈ Link.sends tr, sd.h = N.host ∧ sd.t = sd'.t ∧ sd.items = sd'.items
-  taskMcast : ∀ st ∈ steps, (∃ oid ttl ad due, st.b = .task oid ttl ad due) → ∀ p ∈ st.out,
-    ∃ sd ∈ Link.sends tr, sd.h = N.host ∧ sd.t = st.t ∧ sd.dst = none ∧ sd.items = itemsOf lower N p
+  sendsIn : ∀ sd ∈ Link.sends tr, sd.h = N.host → Link.ptrSvcs sd.items ≠ [] →
+    ∃ sd' ∈ Link.sends (events lower N steps), sd'.t = sd.t ∧ sd'.items = sd.items ∧ sd'.dst = sd.dst
+  sendsOut : ∀ sd' ∈ Link.sends (events lower N steps),
+    ∃ sd ∈ Link.sends tr, sd.h = N.host ∧ sd.t = sd'.t ∧ sd.items = sd'.items ∧ sd.dst = sd'.dst
   regsIn : ∀ x ∈ Link.regs tr, x.2.owner = N.host → x ∈ Link.regs (events lower N steps)
   regsOut : ∀ x ∈ Link.regs (events lower N steps), x ∈ Link.regs tr
   updsIn : ∀ x ∈ Link.upds tr, x.2.owner = N.host → x ∈ Link.upds (events lower N steps)
@@ -697,10 +699,13 @@ theorem laterRegEv_false_of (tr tr' : Link.Trace) (s : Link.Svc) (t t2 : Int)
 /-- an announcement of the run is a multicast of the link trace -/
 theorem AnnAt_mcast_tr (tr : Link.Trace) (endT : Int) (steps : List Step) (T0 : Int) (h : HostRun lower tr endT N steps T0)
     (t : Int) (σ : Link.Svc) (ha : AnnAt lower N steps t σ) : Link.mcastAt tr N.host t (Link.posFull σ) = true := by
-  obtain ⟨st, hst, htask, rfl, p, hp, hq⟩ := ha
-  obtain ⟨sd, hsd, h1, h2, h3, h4⟩ := h.taskMcast st hst htask p hp
-  rw [Link.mcastAt_iff]
-  exact ⟨sd, hsd, h1, h2, h3, by rw [h4]; exact hq⟩
+  obtain ⟨st, hst, ⟨oid, ttl, ad, due, hb⟩, rfl, p, hp, hq⟩ := ha
+  have hm := mcastAt_of_out' lower N steps st hst (by rw [hb]; exact Zc.GenFacts.Link.dstOf_task _ _ _ _ _) p hp ⟨N.host, 0, 0⟩ rfl
+    (Link.posFull σ) hq
+  rw [Link.mcastAt_iff] at hm ⊢
+  obtain ⟨sd', hsd', _, e2, e3, e4⟩ := hm
+  obtain ⟨sd, hsd, g1, g2, g3, g4⟩ := h.sendsOut sd' hsd'
+  exact ⟨sd, hsd, g1, by rw [g2, e2], by rw [g4, e3], by rw [g3]; exact e4⟩
 
 /-- K1 is host-local: it holds on a link trace whose hosts are fair runs of the machine -/
 theorem K1_of_hosts (tr : Link.Trace) (endT : Int) (hg : Hosts lower tr endT) : Link.K1 Link.Cfg.paper tr endT = true := by
